@@ -32,3 +32,36 @@ package signaller
 //@ ensures  now.Unix() >= oldPrice.Timestamp + s.params.CooldownTime + TimeBuffer && oldPrice.SignalPriceStatus != newPrice.Status ==> result
 //@ ensures  now.Unix() >= oldPrice.Timestamp + s.params.CooldownTime + TimeBuffer && deviated(feed.DeviationBasisPoint, oldPrice.Price, newPrice.Price) ==> result
 //@ ensures  now.Unix() >= oldPrice.Timestamp + s.params.CooldownTime + TimeBuffer && now.Unix() >= oldPrice.Timestamp + feed.Interval ==> result
+
+// ---- C20: a round only acts on state refreshed in that round ----------------------------------------------
+// ghost: the cached chain view (params, current feeds, this validator's last prices) was refreshed successfully
+// since the last sleep. Sleeping makes whatever was cached stale.
+//@ ghost Refreshed Bool
+//@ extern time.Sleep(d) ()
+//@ modifies Refreshed
+//@ ensures !Refreshed
+
+// chain queries (gRPC): assumed
+//@ func (q FeedQuerier) QueryValidValidator
+//@ trusted
+
+// the three refresh queries run concurrently (goroutines + WaitGroup: body not verified); success means all three
+// succeeded
+//@ func (s *Signaller) updateInternalVariables
+//@ trusted
+//@ modifies Refreshed, s
+//@ ensures result ==> Refreshed
+//@ ensures !result ==> Refreshed == old(Refreshed)
+
+// deciding and submitting prices uses the cached view: it must be fresh
+//@ func (s *Signaller) execute
+//@ trusted
+//@ requires Refreshed
+//@ modifies PendingIDs, s
+
+// C20: every round sleeps, then re-queries the chain; prices are decided and submitted only in a round whose
+// refresh succeeded (a failed query skips the round instead of acting on the previous round's view, in which an
+// already accepted price would look due again).
+//@ func (s *Signaller) Start
+//@ modifies Refreshed, PendingIDs, s
+//@ loop 0: invariant true
